@@ -269,7 +269,8 @@ pub fn conn(allow_h2: bool) -> impl Strategy<Value = Conn> {
         .prop_map(|((v4, c_addr, s_addr, c_port, s_port), script, c_cuts, s_cuts, (c_isn, s_isn), (c_ttl, s_ttl), ts, gap_ms, fin, window)| Conn {
             v4,
             c_addr,
-            s_addr: if s_addr % 6 == c_addr % 6 { (s_addr + 1) % 6 } else { s_addr },
+            // both endpoints on one host (loopback-like traffic) is allowed when the ports differ
+            s_addr: if s_addr % 6 == c_addr % 6 && (c_port == s_port || gap_ms % 3 != 0) { (s_addr + 1) % 6 } else { s_addr },
             c_port,
             s_port,
             script,
